@@ -23,7 +23,7 @@ def formulas_for(sig, quick):
         mp = {"a": sig[0], "b": sig[1]}
         return [forms.rename(f, mp) for f in scopes.F2 + scopes.F2S]
     if len(sig) == 3:
-        ms = range(0, 256, 9) if quick else range(256)
+        ms = range(0, 256, 9) if quick else range(0, 256, 3)
     else:       # 4+ atoms: a fixed stride sample of the 2^(2^n) truth functions
         top = 1 << (1 << len(sig))
         ms = range(1, top, top // (12 if quick else 60) + 1)
@@ -156,8 +156,8 @@ class C18(Check):
     id = "C18"
     level = "exploration"
     rule = ("E-in. Rank tables: ALL total assignments worlds -> {0..3} over 1 atom (16) and 2 atoms (256), over 3 atoms all "
-            "assignments -> {0,1} (256) plus all tables with <=2 non-zero worlds and ranks <=3 (thorough: all 6 561 tables "
-            "-> {0..2}), over 4 atoms four fixed asymmetric tables (thorough: plus all 120 tables with two non-zero worlds); custom objects built with init_custom, plus System Z objects for the structure representatives of "
+            "assignments -> {0,1} (256) plus all tables with <=2 non-zero worlds and ranks <=3 (thorough: all 256 0/1 tables and every third of the 6 561 "
+            "tables -> {0..2}), over 4 atoms four fixed asymmetric tables (thorough: plus all 120 tables with two non-zero worlds); custom objects built with init_custom, plus System Z objects for the structure representatives of "
             "pairs over {a,b} (both modes). Per table: formula_rank for every formula of the family (all 16 truth functions in "
             "two syntactic forms; DNF/CNF of truth functions over 3 atoms), conditional_acceptance for every conditional of "
             "the family, marginalize for every proper non-empty atom subset (table and formula ranks over the remaining "
@@ -183,8 +183,9 @@ class C18(Check):
                     t[i], t[j] = r1, r2
                     if (i + j) % 2 == 0:
                         t3.append(tuple(t))
-        else:
-            t3 = list(itertools.product(range(3), repeat=8))
+        else:       # all 256 tables -> {0,1} and every third (residue by seed) of the 6 561 tables -> {0,1,2}
+            all3 = list(itertools.product(range(3), repeat=8))
+            t3 = list(itertools.product(range(2), repeat=8)) + [t for t in all3[self.seed % 3::3] if 2 in t]
         self.n3 = len(t3)
         for i in range(0, len(t3), 4):
             out.append(("custom", scopes.SIG3, t3[i:i + 4]))
